@@ -98,6 +98,60 @@ func initZZ() {
 		}
 		return n
 	})
+	Z("FrozenAliases", func(fr *frame, a []value) value {
+		// number of pointers / addressable reflect.Values reachable from the
+		// arguments that alias a frozen cell
+		e := fr.e
+		if e.frozen == nil {
+			return 0
+		}
+		n := 0
+		seen := map[interface{}]bool{}
+		var walk func(v value, depth int)
+		walk = func(v value, depth int) {
+			if depth > 6 {
+				return
+			}
+			switch x := v.(type) {
+			case *value:
+				if x == nil || seen[x] {
+					return
+				}
+				seen[x] = true
+				if _, ok := e.frozen[x]; ok {
+					n++
+					return
+				}
+				walk(*x, depth+1)
+			case iface:
+				if x.t != nil {
+					walk(x.v, depth+1)
+				}
+			case structure:
+				for _, f := range x {
+					walk(f, depth+1)
+				}
+			case rvflag:
+				if x.addr != nil {
+					if _, ok := e.frozen[x.addr]; ok {
+						n++
+					}
+				}
+			case []value:
+				for _, f := range x {
+					walk(f, depth+1)
+				}
+			case array:
+				for _, f := range x {
+					walk(f, depth+1)
+				}
+			}
+		}
+		for _, x := range a[0].([]value) {
+			walk(x, 0)
+		}
+		return n
+	})
 	Z("EventText", func(fr *frame, a []value) value {
 		kind := strArg(a[0])
 		for _, ev := range fr.e.events {
@@ -213,7 +267,9 @@ func (e *Engine) freezeGlobals() {
 		}
 		p := e.globals[g]
 		e.frozen[p] = g.String()
+		e.freezeGlobalValues = true
 		e.freezeWalk(*p, g.String(), seen, 0)
+		e.freezeGlobalValues = false
 	}
 }
 
@@ -262,7 +318,11 @@ func (e *Engine) freezeWalk(v value, path string, seen map[interface{}]bool, dep
 			if _, ok := v[0].(rtype); ok {
 				// a reflect.Value held by the tree (LiteralExpr.Literal,
 				// CallExpr.Func): the node's slots are frozen, the value it
-				// refers to is run-time data, not syntax
+				// refers to is run-time data, not syntax.  A process-wide
+				// reflect.Value (nilValue ...) also freezes the cell it aliases.
+				if f, isF := v[2].(rvflag); isF && f.addr != nil && e.freezeGlobalValues {
+					e.frozen[f.addr] = path + ".addr"
+				}
 				return
 			}
 		}
